@@ -84,6 +84,26 @@ Theorem C09_start_is_async_then_snap : forall st hs,
   first_failing st (rev (pubdecs st)) = None -> first_failing st (subdecs st) = None ->
   find_handler (hname hs) (step (step st OStartAsync) (OSnap (hname hs))) = find_handler (hname hs) (step st OStart).
 Proof. exact start_is_async_then_snap. Qed.
+(** For ALL programs (Stop, re-added names, failing constructors, asynchronous starts): the handler the
+    Router holds under a name was added by an AddHandler of the program, and what it froze is declarative:
+    its middleware snapshot is [regs_of pre1] for a prefix [pre1] of the program that is followed by a
+    Run/RunHandlers or by its own copy op, its decorator lists are those of a prefix [pre0] <= [pre1] that is
+    followed by a Run/RunHandlers.
+    _partial: WHICH start it is (the first one in which no constructor fails after the AddHandler that
+    follows the last Stop of the name) is not given by a closed scan function for programs with Stop /
+    failing constructors — it is the registration machine's (C09_start_outcome, C09_started_frozen,
+    C09_snapshot_linearisation); for plain programs the scan reading is C09_started_freezes_registrations. *)
+Theorem C09_started_holds_prefix_partial : forall ops n h s,
+  find_handler n (exec rinit ops) = Some (HS h (Some s)) ->
+  In (OAddHandler h) ops /\
+  exists pre0 o0 pre1 o1, is_prefix pre0 pre1 /\ is_prefix (pre0 ++ [o0]) ops /\ is_prefix (pre1 ++ [o1]) ops
+    /\ (o0 = OStart \/ o0 = OStartAsync) /\ (o1 = OStart \/ o1 = OSnap (h_name h))
+    /\ s_chain s = regs_of pre1 /\ s_pubdecs s = pdecs_of pre0 /\ s_subdecs s = sdecs_of pre0.
+Proof. exact started_holds_prefix. Qed.
+(** the Router's decorator lists are, for all programs, all decorator registrations in order *)
+Theorem C09_decorator_lists_all : forall ops,
+  pubdecs (exec rinit ops) = pdecs_of ops /\ subdecs (exec rinit ops) = sdecs_of ops.
+Proof. exact decorators_all. Qed.
 Theorem C09_names_unique : forall ops, NoDup (names (exec rinit ops)).
 Proof. exact names_nodup_all. Qed.
 
@@ -146,6 +166,8 @@ Print Assumptions C09_registrations_never_removed.
 Print Assumptions C09_started_frozen.
 Print Assumptions C09_start_outcome.
 Print Assumptions C09_names_unique.
+Print Assumptions C09_started_holds_prefix_partial.
+Print Assumptions C09_decorator_lists_all.
 Print Assumptions C09_snapshot_linearisation.
 Print Assumptions C09_async_start_pending.
 Print Assumptions C09_start_is_async_then_snap.
